@@ -4,7 +4,7 @@ from __future__ import annotations
 from sa.terms import C, CallT, G, P, Sub, SubC, is_call, is_lit, show, show_fact, subterms
 from sa.walker import State, flatten_events
 
-from . import own_site, CHECKER, VSIG, call_events, flat, fn_site, loc, mentions
+from . import own_site, CHECKER, VSIG, checker_family, call_events, flat, fn_site, loc, mentions
 
 EXPLANATION = (
     "Information-flow rule on verify_delegation. R1: for every exception that a handler in verify_delegation catches "
@@ -93,13 +93,14 @@ def run(ctx):
     for p in rets:
         st = State(facts=p.facts)
         evs = flat(p)
-        disc_ok = [ev for ev in evs if ev[0] == "call" and ev[2] == CHECKER and ev[5][0] == "ok" and ev[3] and ev[3][0] != T and mentions(ev[3][0], SubC(U, "signed"))]
-        disc_failed = [ev for ev in evs if ev[0] == "call" and ev[2] == CHECKER and ev[5][0] == "raise" and ev[3] and ev[3][0] != T and (mentions(ev[3][0], SubC(U, "signed")) or ev[3][0] == U)]
+        FAM = checker_family(eng)
+        disc_ok = [ev for ev in evs if ev[0] == "call" and ev[2] in FAM and ev[5][0] == "ok" and ev[3] and ev[3][0] != T and mentions(ev[3][0], SubC(U, "signed"))]
+        disc_failed = [ev for ev in evs if ev[0] == "call" and ev[2] in FAM and ev[5][0] == "raise" and ev[3] and ev[3][0] != T and (mentions(ev[3][0], SubC(U, "signed")) or ev[3][0] == U)]
         if not disc_ok and not disc_failed:
             # the same evidence through a predicate built on the checker: its summary carries
             # ok(checker(x)) on the True side and notok(checker(x)) on the False side
             for f in st.closure():
-                if f[0] in ("ok", "notok") and is_call(f[1], CHECKER) and f[1][2] and f[1][2][0] != T and (mentions(f[1][2][0], SubC(U, "signed")) or (f[0] == "notok" and f[1][2][0] == U)):
+                if f[0] in ("ok", "notok") and is_call(f[1], FAM) and f[1][2] and f[1][2][0] != T and (mentions(f[1][2][0], SubC(U, "signed")) or (f[0] == "notok" and f[1][2][0] == U)):
                     (disc_ok if f[0] == "ok" else disc_failed).append(f)
         if not disc_ok and not disc_failed:
             # a predicate asked about the signed part said no, and its every "no" refutes the checker
@@ -295,7 +296,7 @@ def _no_means_not_delegating(eng, callterm):
     for p in falses:
         ok = False
         for f in p.facts:
-            if f[0] == "notok" and is_call(f[1], CHECKER) and f[1][2] and (f[1][2][0] == x or mentions(f[1][2][0], x)):
+            if f[0] == "notok" and is_call(f[1], checker_family(eng)) and f[1][2] and (f[1][2][0] == x or mentions(f[1][2][0], x)):
                 ok = True
             elif f[0] == "nottype" and f[1] == x and "dict" in f[2]:
                 ok = True
